@@ -50,40 +50,52 @@ def cases(draw, tier):
     msl = draw(st.integers(max(2, ms), max(2, ms) + 2))
     n = draw(st.integers(max(msl, 6), 50))
     exact = draw(st.sampled_from([False, False, True]))
-    X, meta = draw(D.structured_matrix(n, p, exact=exact, max_shifts=0, max_spikes=3, max_bumps=3,
-                                       boundary_positions=(0, n - 1)))
-    # distinct magnitudes per column so that savings are rarely tied
-    for i in range(n):
-        for j in range(p):
-            X[i][j] = X[i][j] * (1.0 + 0.13 * j)
+    # structural choices first, bulk data last (see strategies/data.py)
     fams = ["combined", "dense", "sparse", "intermediate"]
     cpen = draw(st.sampled_from(fams + ["callable"]))
+    weak = None
     if cpen == "callable":
         # a lenient user penalty: anomalies are detected although no single column exceeds the sparse penalty
         cpen = {"penalty": {"alpha": draw(st.sampled_from([0.5, 1.0, 2.0, 0.0])), "betas": [draw(st.sampled_from([0.0, 0.1, 0.5]))] * p}}
         weak = draw(st.sampled_from([0.15, 0.3, 0.6]))
-        X = [[v * weak for v in row] for row in X]
     craft = draw(st.integers(0, 5)) == 0
     if craft:
         # noise-free bump: one dominant column and one column whose saving is just above the sparse penalty
         L = draw(st.integers(max(msl, 3), max(msl, min(n - 1, 12))))
         a0 = draw(st.integers(0, n - L))
-        X = [[0.0] * p for _ in range(n)]
         big = draw(st.sampled_from([30.0, 100.0, 300.0]))
         eps_rel = draw(st.sampled_from([1e-3, 1e-2, 0.1, -1e-2]))
         cscale = draw(st.sampled_from([1.0, 0.5, 2.0]))
-        beta = 2 * cscale * math.log(n_params(coll) * p)
-        for i in range(a0, a0 + L):
-            X[i][0] = big
-            X[i][1] = math.sqrt(max(beta * (1 + eps_rel), 0.0) / L) if coll is None or "Gaussian" not in str(coll) else X[i][1]
         cpen = "dense"
-    return {"params": {"collective_saving": coll, "point_saving": draw(st.sampled_from([None, {"cls": "L2Cost", "param": 0.0}])),
+    case = {"params": {"collective_saving": coll, "point_saving": draw(st.sampled_from([None, {"cls": "L2Cost", "param": 0.0}])),
                        "collective_penalty": cpen,
                        "collective_penalty_scale": cscale if craft else draw(st.sampled_from([1.0, 0.5, 2.0, 0.1, 0.0, 0.25])),
                        "point_penalty": draw(point_penalty_strategy(p)),
                        "point_penalty_scale": draw(st.sampled_from([1.0, 0.5, 2.0, 0.1])),
                        "min_segment_length": msl, "max_segment_length": draw(st.sampled_from([1000, msl + 5, msl]))},
-            "X": X, "index": draw(D.index_spec()), "columns": draw(st.sampled_from(["default", "strings"]))}
+            "X": None, "index": draw(D.index_spec()), "columns": draw(st.sampled_from(D.COLUMN_KINDS)),
+            # how the data reach the detector: the same frame throughout; a frame fitted under the same labels in another
+            # order; a buffer (array or frame) that held other data during an earlier predict and was refilled in place
+            "mode": draw(st.sampled_from(["same", "same", "permuted_labels", "refill_array", "refill_frame"])),
+            "perm_seed": draw(st.integers(0, 10**6))}
+    if craft:
+        X = [[0.0] * p for _ in range(n)]
+        beta = 2 * cscale * math.log(n_params(coll) * p)
+        for i in range(a0, a0 + L):
+            X[i][0] = big
+            if coll is None or "Gaussian" not in str(coll):
+                X[i][1] = math.sqrt(max(beta * (1 + eps_rel), 0.0) / L)
+    else:
+        X, meta = draw(D.structured_matrix(n, p, exact=exact, max_shifts=0, max_spikes=3, max_bumps=3,
+                                           boundary_positions=(0, n - 1)))
+        # distinct magnitudes per column so that savings are rarely tied
+        for i in range(n):
+            for j in range(p):
+                X[i][j] = X[i][j] * (1.0 + 0.13 * j)
+        if weak is not None:
+            X = [[v * weak for v in row] for row in X]
+    case["X"] = X
+    return case
 
 
 def check(case):
@@ -94,12 +106,40 @@ def check(case):
     params = case["params"]
     X = np.asarray(case["X"], dtype=float)
     n, p = X.shape
-    cols = pd.Index([f"v{chr(97 + j)}" for j in range(p)]) if case["columns"] == "strings" else pd.RangeIndex(p)
+    mode = case.get("mode", "same")
+    colkind = case["columns"]
+    if mode == "permuted_labels" and colkind in ("mixed", "duplicated"):
+        colkind = "unsorted"
+    labels = D.column_labels(colkind, p)
+    cols = pd.RangeIndex(p) if colkind == "default" else pd.Index(labels)
     df = pd.DataFrame(X, index=D.build_index(case["index"], n), columns=cols)
     with sut("MVCAPA.fit/predict/transform"):
-        det = K.build(K.detector_spec("MVCAPA", params)).fit(df)
-        y = det.predict(df)
-        dense = det.transform(df)
+        det = K.build(K.detector_spec("MVCAPA", params))
+        if mode == "permuted_labels":
+            # same numbers in the same positions, labelled with the same names in another order
+            perm = np.random.default_rng(case["perm_seed"]).permutation(p)
+            if np.array_equal(perm, np.arange(p)):
+                perm = np.roll(perm, 1)
+            det.fit(pd.DataFrame(X, index=df.index, columns=[labels[j] for j in perm]))
+            y = det.predict(df)
+            dense = det.transform(df)
+        elif mode in ("refill_array", "refill_frame"):
+            det.fit(df)
+            other = np.roll(X, 1, axis=1)[::-1].copy() if case["perm_seed"] % 2 else np.roll(X, 1, axis=1).copy()
+            buf = other if mode == "refill_array" else pd.DataFrame(other, index=df.index.copy(), columns=cols)
+            det.predict(buf)
+            if mode == "refill_array":
+                buf[:] = X
+            else:
+                buf.iloc[:, :] = X
+            y = det.predict(buf)
+            dense = det.transform(buf)
+            if mode == "refill_array":
+                dense.columns = [f"labels_{c}" for c in df.columns]  # arrays carry default labels
+        else:
+            det.fit(df)
+            y = det.predict(df)
+            dense = det.transform(df)
     _, events = K.sparse_events(y)
     icols = [[int(c) for c in np.asarray(v).reshape(-1)] for v in y["icolumns"].tolist()]
     cs = to_saving(K.build(params["collective_saving"]) if params["collective_saving"] else K.build({"cls": "L2Saving"})).fit(X)
@@ -167,6 +207,7 @@ def check(case):
         classes.append("proper_subset")
     if margin_cases:
         classes.append("margin_satisfied")
+    classes.append(f"mode={mode}")
     classes.append("c_pen=" + (params["collective_penalty"] if isinstance(params["collective_penalty"], str) else "callable"))
     classes.append("p_pen=" + (params["point_penalty"] if isinstance(params["point_penalty"], str) else "callable"))
     return {"nontrivial": proper, "classes": classes}
@@ -176,6 +217,6 @@ FACETS = [
     Facet(name="affected_columns", check=check, strategy=cases,
           rule=("p in 2..6, n<=50, bumps and spikes on generated column subsets with distinct per-column magnitudes (also weak dense anomalies under a lenient user penalty callable, and crafted noise-free anomalies with one dominant and one marginal column), all collective "
                 "penalty families x scales, point penalty from all four families or a user callable with rank-dependent betas, savings L2Saving / Saving(L2Cost(0)) / Saving(GaussianVarCost); "
-                "DataFrame input with generated index and column labels; non-trivial = an anomaly whose subset is proper (1 <= k* < p)"),
+                "DataFrame input with generated index and column labels (8 kinds), also fitted under the same labels in another order, and array / frame buffers refilled in place after an earlier predict; non-trivial = an anomaly whose subset is proper (1 <= k* < p)"),
           n_quick=640, n_thorough=10000, shards_quick=8, shards_thorough=16),
 ]
